@@ -82,7 +82,8 @@ def build(M, fam, env):
     if kind == 'RECT':
         dx = [env.pos('dx%d' % i) for i in range(fam['nx'])]
         dy = [env.pos('dy%d' % i) for i in range(fam['ny'])]
-        geo = M.mulgrid().rectangular(dx, dy, dz, convention=conv, atmos_type=atm, origin=[ox, oy, oz])
+        geo = M.mulgrid().rectangular(dx, dy, dz, convention=conv, atmos_type=atm, origin=[ox, oy, oz],
+                                      **({'justify': fam['justify']} if fam.get('justify') else {}))
     elif kind == 'Q4':
         # 2x2 unit squares whose shared centre node is moved to (a, b),
         # |a-1| + |b-1| < 1 keeps the four quadrilaterals convex
@@ -137,9 +138,24 @@ def build(M, fam, env):
         _finish(geo, fam, env, dz, oz)
     else:
         raise ValueError(kind)
+    if fam.get('conn_flip'): flip_connections(M, geo, fam['conn_flip'])
+    if fam.get('atm_name'): geo.rename_layer(geo.layerlist[0].name, fam['atm_name'])
     if fam.get('surf', 'default') != 'default':
         assign_surfaces(geo, fam, env)
     return geo
+
+
+def flip_connections(M, geo, which):
+    """Re-file connections with their two columns in the other order, as a
+    geometry file whose CONNE lines name the columns in that order would give
+    (read_connections adds them exactly like this).  which: 'all', or 'alt'
+    (every second connection of the list)."""
+    for i, con in enumerate(list(geo.connectionlist)):
+        if which == 'alt' and i % 2: continue
+        a, b = con.column
+        geo.delete_connection((a.name, b.name))
+        geo.add_connection(M.connection([b, a]))
+    geo.identify_neighbours()
 
 
 MIX_NODES = {'  a': (0, 0), '  b': (2, 0), '  c': (4, 0), '  d': (0, 2), '  e': (2, 2), '  f': (4, 2),
@@ -268,11 +284,51 @@ def apply_step(M, geo, step):
     if k == 'snap_nearest': return geo.snap_columns_to_nearest_layers(list(step.get('cols', [])))
     if k == 'translate': return geo.translate(list(step['shift']))
     if k == 'rotate': return geo.rotate(step['angle'], centre=list(step['centre']))
+    if k == 'copy_layers_from' and step.get('companion'):
+        # the source is a full second geometry that stays part of the history (C10)
+        return geo.copy_layers_from(companion(M, geo, step))
     if k == 'copy_layers_from':
         other = M.mulgrid(convention=geo.convention, atmos_type=geo.atmosphere_type)
         other.add_layers(list(step['thicknesses']), step['top'])
         return geo.copy_layers_from(other)
+    if k == 'give_layers':        # the second geometry copies THIS geometry's layers
+        return companion(M, geo, step).copy_layers_from(geo)
+    if k == 'companion':          # an edit applied to the second geometry
+        return apply_step(M, geo._vx_companion, step['do'])
+    if k == 'refresh':            # what the caller of low-level edits is expected to do afterwards
+        geo.setup_block_name_index()
+        geo.setup_block_connection_name_index()
+        geo.identify_neighbours()
+        return None
     raise ValueError(k)
+
+
+def companion(M, geo, step):
+    """The second geometry of a two-geometry history (C10): a 2x1 rectangular
+    mesh with its own layers; column 0 keeps the default surface, column 1 gets
+    step['surface'] (strictly inside the top layer).  Created on first use and
+    kept on the primary geometry as `_vx_companion`."""
+    comp = getattr(geo, '_vx_companion', None)
+    if comp is None:
+        comp = M.mulgrid().rectangular([1.0, 1.0], [1.0], list(step['thicknesses']), convention=geo.convention,
+                                       atmos_type=geo.atmosphere_type, origin=[0.0, 0.0, step['top']])
+        if step.get('surface') is not None:
+            col = comp.columnlist[1]
+            col.surface = step['surface']
+            comp.set_column_num_layers(col)
+            comp.setup_block_name_index()
+            comp.setup_block_connection_name_index()
+        geo._vx_companion = comp
+    return comp
+
+
+def perm_names(olds, perm, fresh='xyz'):
+    """new names for the list form of rename_column / rename_layer"""
+    olds = list(olds)
+    if perm in ('swap', 'cycle'): return olds[1:] + olds[:1]
+    if perm == 'chain': return olds[1:] + [fresh]          # each takes its successor's old name, the last a fresh one
+    if perm == 'unchain': return [fresh] + olds[:-1]       # the same renaming listed in the order that works one by one
+    raise ValueError(perm)
 
 
 # ops that promise a valid mesh afterwards (connections rebuilt)
